@@ -1,2 +1,16 @@
 import OmplModel.Props.C11
-#print axioms OmplModel.Props.C11.clear_empty
+#print axioms OmplModel.Props.C11.reachable_inv
+#print axioms OmplModel.Props.C11.top_is_min
+#print axioms OmplModel.Props.C11.popAll_sorted_perm
+#print axioms OmplModel.Props.C11.pop_removes_a_minimum
+#print axioms OmplModel.Props.C11.insert_adds
+#print axioms OmplModel.Props.C11.remove_live_handle
+#print axioms OmplModel.Props.C11.remove_dead_handle
+#print axioms OmplModel.Props.C11.update_changes_only_that_key
+#print axioms OmplModel.Props.C11.handle_names_one_element
+#print axioms OmplModel.Props.C11.build_establishes
+#print axioms OmplModel.Props.C11.sort_correct
+#print axioms OmplModel.Props.C11.ltNat_swo
+#print axioms OmplModel.Props.C11.f1Heap_ok
+#print axioms OmplModel.Props.C11.removePosOld_breaks
+#print axioms OmplModel.Props.C11.nonvacuous_state
